@@ -14,6 +14,7 @@ import (
 func runCheck(P *Program, verif, prop, tier string, seed int, verbose bool, t0 time.Time) int {
 	var results []*FuncResult
 	var keys []string
+	verifDir = verif
 	coverReturns = tier == "thorough"
 	for k, c := range P.contracts {
 		if hasProp(c.Props, prop) && !c.NoVerify {
@@ -232,6 +233,11 @@ type KnownFinding struct {
 	Witness    string `json:"witness"`
 	Status     string `json:"status"` // open | fixed
 	Note       string `json:"note,omitempty"`
+	// WitnessTest: a Go test (path relative to /verif, external or in-package test of package Pkg) that FAILS
+	// on the real code while the defect is present.
+	WitnessTest string `json:"witness_test,omitempty"`
+	WitnessPkg  string `json:"witness_pkg,omitempty"`
+	WitnessRun  string `json:"witness_run,omitempty"`
 }
 
 type KnownFile struct {
@@ -279,6 +285,11 @@ func (k *KnownFile) forFunc(prop, fn string) []KnownRegion {
 
 // recheckKnown re-verifies the obligation outside the recorded region: a failure there is a different violation.
 func (P *Program) recheckKnown(kf *KnownFinding, o *Obligation, dir string, timeout time.Duration) (bool, string) {
+	if kf.WitnessTest != "" {
+		if ok, detail := P.runWitness(kf); !ok {
+			return false, detail
+		}
+	}
 	if kf.Region == "" {
 		return true, ""
 	}
@@ -354,3 +365,27 @@ func skipSexpr(s string, p int) int {
 	}
 	return p
 }
+
+var witnessCache = map[string]string{}
+
+// runWitness replays the recorded witness of a known finding on the real code; true if it still fails there.
+func (P *Program) runWitness(kf *KnownFinding) (bool, string) {
+	key := kf.WitnessTest + "|" + kf.WitnessRun
+	if r, ok := witnessCache[key]; ok {
+		return r == "", r
+	}
+	src, err := os.ReadFile(filepath.Join(verifDir, kf.WitnessTest))
+	if err != nil {
+		witnessCache[key] = "witness test unreadable: " + err.Error()
+		return false, witnessCache[key]
+	}
+	out, _ := runGoTestNamed(P.repo, kf.WitnessPkg, string(src), kf.WitnessRun)
+	if strings.Contains(out, "--- FAIL") || strings.Contains(out, "panic:") {
+		witnessCache[key] = ""
+		return true, ""
+	}
+	witnessCache[key] = "the recorded witness no longer fails on the real code: " + firstLines(out, 4)
+	return false, witnessCache[key]
+}
+
+var verifDir = "/verif"
